@@ -419,6 +419,20 @@ pub fn run_case(p: &Program, cfg: &Config, opts: &CaseOpts, rng: &mut Rng) -> Ca
                                 if outcome_reachable(p, &dcfg, &target, 3_000_000) == Some(false) {
                                     known = Some("K5-rmw-reads-only-latest-store".to_string());
                                 }
+                                if known.is_none() && p.threads.iter().flatten().any(|o| matches!(o, Op::AwaitY { .. })) {
+                                    let mut dcfg = opts.o1.clone().unwrap();
+                                    dcfg.yield_prunes_seen = true;
+                                    if outcome_reachable(p, &dcfg, &target, 3_000_000) == Some(false) {
+                                        known = Some("K9-yield-prunes-stale-rereads".to_string());
+                                    }
+                                }
+                                if known.is_none() {
+                                    let mut dcfg = opts.o1.clone().unwrap();
+                                    dcfg.sc_load_skips_overwritten_sc_store = true;
+                                    if outcome_reachable(p, &dcfg, &target, 3_000_000) == Some(false) {
+                                        known = Some("K8-seqcst-load-assumes-execution-order".to_string());
+                                    }
+                                }
                             }
                             rep.violations.push(Violation {
                                 kind: "missing_outcome".into(),
